@@ -12,14 +12,23 @@ fn point(kind: i128, a: &[i128]) -> PointIndex {
     }
 }
 
-fn drive<const W: usize, const H: usize, const D: usize, const C: usize>(kind: i128, ops: &[i128], rec: bool) -> Vec<i128> {
+// element types: i64, and [gridnz] a type whose Default is NOT the all-zero bit pattern (Nz(-1)); values are stored shifted by one
+// so that the default reads as 0 and the outputs are those of the i64 grid
+pub trait Elem: Copy + Default + PartialEq + std::fmt::Debug { fn mk(v: i128) -> Self; fn back(self) -> i128; }
+impl Elem for i64 { fn mk(v: i128) -> Self { v as i64 } fn back(self) -> i128 { self as i128 } }
+#[derive(Copy, Clone, PartialEq, Debug)]
+pub struct Nz(i64);
+impl Default for Nz { fn default() -> Self { Nz(-1) } }
+impl Elem for Nz { fn mk(v: i128) -> Self { Nz((v as i64).wrapping_sub(1)) } fn back(self) -> i128 { self.0.wrapping_add(1) as i128 } }
+
+fn drive<E: Elem, const W: usize, const H: usize, const D: usize, const C: usize>(kind: i128, ops: &[i128], rec: bool) -> Vec<i128> {
     let ty = match kind {
         1 => ArrayType::Array1D,
         2 => ArrayType::Array2D,
         3 => ArrayType::Array3D,
         _ => ArrayType::Array4D,
     };
-    let g: ArrayGrid<i64, W, H, D, C> = ArrayGrid::new(ty);
+    let g: ArrayGrid<E, W, H, D, C> = ArrayGrid::new(ty);
     let mut out = Vec::new();
     let mut i = 0;
     while i + 4 < ops.len() {
@@ -29,17 +38,17 @@ fn drive<const W: usize, const H: usize, const D: usize, const C: usize>(kind: i
         if ops[i] == 0 {
             if rec {
                 // [gridrec]: every operation on its own; a panicking store answers -998 and the SAME grid is used on
-                let v = ops[i + 5] as i64;
+                let v = E::mk(ops[i + 5]);
                 if std::panic::catch_unwind(std::panic::AssertUnwindSafe(|| g.set(p, v))).is_err() { out.push(-998); }
             } else {
-                g.set(p, ops[i + 5] as i64);
+                g.set(p, E::mk(ops[i + 5]));
             }
             i += 6;
         } else {
             if rec {
-                out.push(std::panic::catch_unwind(std::panic::AssertUnwindSafe(|| g.get(p) as i128)).unwrap_or(-999));
+                out.push(std::panic::catch_unwind(std::panic::AssertUnwindSafe(|| g.get(p).back())).unwrap_or(-999));
             } else {
-                out.push(g.get(p) as i128);
+                out.push(g.get(p).back());
             }
             i += 5;
         }
@@ -48,22 +57,23 @@ fn drive<const W: usize, const H: usize, const D: usize, const C: usize>(kind: i
 }
 
 macro_rules! shapes {
-    ($kind:expr, $w:expr, $h:expr, $d:expr, $c:expr, $ops:expr, $rec:expr; $( ($W:literal,$H:literal,$D:literal,$C:literal) ),* ) => {
+    ($kind:expr, $w:expr, $h:expr, $d:expr, $c:expr, $ops:expr, $rec:expr, $nz:expr; $( ($W:literal,$H:literal,$D:literal,$C:literal) ),* ) => {
         match ($w, $h, $d, $c) {
-            $( ($W, $H, $D, $C) => drive::<$W, $H, $D, $C>($kind, $ops, $rec), )*
+            $( ($W, $H, $D, $C) => if $nz { drive::<Nz, $W, $H, $D, $C>($kind, $ops, $rec) } else { drive::<i64, $W, $H, $D, $C>($kind, $ops, $rec) }, )*
             _ => vec![-556],
         }
     };
 }
 
-pub fn run(args: &[i128]) -> Vec<i128> { run_mode(args, false) }
-pub fn run_rec(args: &[i128]) -> Vec<i128> { run_mode(args, true) }
+pub fn run(args: &[i128]) -> Vec<i128> { run_mode(args, false, false) }
+pub fn run_rec(args: &[i128]) -> Vec<i128> { run_mode(args, true, false) }
+pub fn run_nz(args: &[i128]) -> Vec<i128> { run_mode(args, false, true) }
 
-fn run_mode(args: &[i128], rec: bool) -> Vec<i128> {
+fn run_mode(args: &[i128], rec: bool, nz: bool) -> Vec<i128> {
     let kind = args[0];
     let (w, h, d, c) = (args[1], args[2], args[3], args[4]);
     let ops = &args[5..];
-    shapes!(kind, w, h, d, c, ops, rec;
+    shapes!(kind, w, h, d, c, ops, rec, nz;
         (1,1,1,1),(1,1,1,2),(1,1,2,1),(1,2,1,1),(2,1,1,1),(1,2,3,1),(3,2,1,1),(1,1,3,2),
         (2,2,2,2),(1,2,3,4),(4,3,2,1),(2,3,1,2),(3,1,2,2),(2,1,3,1),(3,3,1,2),(1,3,2,3),
         (2,3,4,5),(5,4,3,2),(3,5,2,4),(4,2,5,3),(2,2,3,3),(3,3,2,2),(3,2,3,2),(2,3,2,3),
